@@ -180,33 +180,45 @@ def check_cmpops(ctx, R="C08.cmpop"):
     n_alg = 0
     cpar = ab.args.args[2].arg  # the constant C of `abs(..) <= C`
     inner = set(lib.locals_assigned(ab, lambda v: unparse(v).endswith(".args[0]")))  # the argument of abs(.)
-    for r in lib.returns_of(ab):
-        if not (isinstance(r.value, ast.Tuple) and len(r.value.elts) == 3):
+
+    def _is_add_text(t):
+        return any(t == f"isinstance({a}.op, Add)" for a in inner)
+
+    # every path that returns a bound is evaluated symbolically (locals substituted, conditional expressions split) for each
+    # operator it can be reached with; |q + c| <= C gives (-C - c, C - c), |q - c| <= C and |c - q| <= C give (-C + c, C + c)
+    for asm, env, ex in lib.enumerate_paths(ab):
+        if not (isinstance(ex, ast.Return) and isinstance(ex.value, ast.Tuple) and len(ex.value.elts) == 3):
             continue
-        g = [(t, p) for t, p in lib.guard_tests(r, ab)]
-
-        def _is_add(t):
-            return isinstance(t, ast.Call) and dotted(t.func) == "isinstance" and len(t.args) == 2 and isinstance(t.args[0], ast.Attribute) and t.args[0].attr == "op" and unparse(t.args[0].value) in inner and unparse(t.args[1]) == "Add"
-
-        lo, hi = lin(r.value.elts[0]), lin(r.value.elts[1])
-        if any(_is_add(t) and p for t, p in g):
-            sign, shape = -1, "(-C - c, C - c)"
-        elif any(_is_add(t) and not p for t, p in g):
-            sign, shape = +1, "(-C + c, C + c)"
-        else:
-            sign, shape = 0, "(-C, C)"
-        n_alg += 1
+        addasm = [v for k, v in asm.items() if _is_add_text(k)]
+        ops = [addasm[0]] if addasm else [True, False]
+        try:
+            lo, hi = lin(ex.value.elts[0], env), lin(ex.value.elts[1], env)
+        except RecursionError:
+            raise AnalysisError("shape not recognised: matchAbsBounds bound expressions")
         others = sorted((set(lo) | set(hi)) - {cpar})
-        good = lo.get(cpar) == -1 and hi.get(cpar) == 1
-        if sign == 0:
-            good = good and not others
-        else:
-            # the same matched constant c (whatever the local is called) enters both bounds with the sign of the algebra
-            good = good and len(others) == 1 and others[0] != "" and lo.get(others[0]) == sign and hi.get(others[0]) == sign
-        if good:
-            ctx.ok(R, r, f"abs bound `{unparse(r.value)}` has the form {shape}")
-        else:
-            ctx.finding(R, r, f"abs bound algebra {shape}", f"matchAbsBounds returns `{unparse(r.value)}`; |q ± c| <= C requires {shape}")
+        n_alg += 1
+        if not others:
+            if lo.get(cpar) == -1 and hi.get(cpar) == 1 and len(lo) == 1 and len(hi) == 1:
+                ctx.ok(R, ex, f"abs bound `{unparse(ex.value)}` has the form (-C, C)")
+            else:
+                ctx.finding(R, ex, "abs bound algebra (-C, C)", f"matchAbsBounds returns `{unparse(ex.value)}`; |q| <= C requires (-C, C)")
+            continue
+        for is_add in ops:
+            sign = -1 if is_add else 1
+            shape = "(-C - c, C - c)" if is_add else "(-C + c, C + c)"
+            good = lo.get(cpar) == -1 and hi.get(cpar) == 1 and len(others) == 1 and others[0] != "" and lo.get(others[0]) == sign and hi.get(others[0]) == sign
+            if good:
+                ctx.ok(R, ex, f"abs bound for {'+' if is_add else '-'}: {shape}")
+            else:
+                from ..linform import fmt
+
+                ctx.finding(
+                    R,
+                    ex,
+                    f"abs bound algebra {shape}",
+                    f"matchAbsBounds: on the path {asm or '{}'} the bound is ({fmt(lo)}, {fmt(hi)}) also when the operator inside abs() is "
+                    f"{'+' if is_add else '-'}; |q {'+' if is_add else '-'} c| <= C (and |c {'+' if is_add else '-'} q| <= C) requires {shape}",
+                )
     ctx.floor(R, n_alg, 3, "abs-bound returns")
     # merging keeps the tightest bounds
     mb = model.func(RL, "RequirementMatcher.matchBounds")
@@ -384,6 +396,67 @@ def check_polarity(ctx, R="C08.polarity"):
         ctx.ok(R, fn, "maxDistanceBetween takes the least of the upper bounds implied by visibility and by distance requirements")
     else:
         ctx.finding(R, fn, "maxDistanceBetween min", "maxDistanceBetween no longer returns the minimum of the visibility bound and the requirements' *upper* distance bounds")
+    # who sees whom: visibilityBound(viewer, seen) bounds the distance by the VIEWER's visible distance
+    vb = model.func(PR, "visibilityBound")
+    viewer_p = vb.args.args[0].arg
+    if not any(isinstance(a, ast.Attribute) and a.attr == "visibleDistance" and unparse(a.value) == viewer_p for a in ast.walk(vb)):
+        raise AnalysisError("shape not recognised: visibilityBound no longer reads the visibleDistance of its first parameter")
+    egos = set(lib.locals_assigned(fn, lambda v: isinstance(v, ast.Attribute) and v.attr == "egoObject"))
+    n_vb = 0
+    for i in walk_local(fn):
+        if not isinstance(i, ast.If):
+            continue
+        calls = [c for s_ in i.body for c in ast.walk(s_) if isinstance(c, ast.Call) and dotted(c.func) == "visibilityBound" and len(c.args) == 2]
+        if not calls:
+            continue
+        conj = i.test.values if isinstance(i.test, ast.BoolOp) and isinstance(i.test.op, ast.And) else [i.test]
+        want = None
+        for t in conj:
+            if isinstance(t, ast.Compare) and len(t.ops) == 1 and isinstance(t.ops[0], ast.Is):
+                l, r = t.left, t.comparators[0]
+                if isinstance(l, ast.Attribute) and l.attr == "_observingEntity":
+                    want = (unparse(r), unparse(l.value))  # r observes l.value
+                elif isinstance(r, ast.Attribute) and r.attr == "_observingEntity":
+                    want = (unparse(l), unparse(r.value))
+        if want is None:
+            # `<x> is ego and <y>.requireVisible`: the ego must see y
+            who = [unparse(t.left) if unparse(t.comparators[0]) in egos else unparse(t.comparators[0]) for t in conj if isinstance(t, ast.Compare) and len(t.ops) == 1 and isinstance(t.ops[0], ast.Is) and (unparse(t.left) in egos or unparse(t.comparators[0]) in egos)]
+            seen = [unparse(t.value) for t in conj if isinstance(t, ast.Attribute) and t.attr == "requireVisible"]
+            if len(who) == 1 and len(seen) == 1:
+                want = (who[0], seen[0])
+        if want is None:
+            raise AnalysisError(f"shape not recognised: guard `{norm_text(i.test, 60)}` of a visibilityBound call in maxDistanceBetween")
+        for c in calls:
+            n_vb += 1
+            got = (unparse(c.args[0]), unparse(c.args[1]))
+            same = lambda a, b: a == b or (a in egos and b in egos)
+            # the ego may be named through either alias (`ego` or the parameter tested to be the ego)
+            alias = {want[0]} | (egos if any(unparse(t.left) == want[0] and unparse(t.comparators[0]) in egos or unparse(t.comparators[0]) == want[0] and unparse(t.left) in egos for t in conj if isinstance(t, ast.Compare) and len(t.ops) == 1) else set())
+            if (got[0] in alias or same(got[0], want[0])) and got[1] == want[1]:
+                ctx.ok(R, c, f"under `{norm_text(i.test, 50)}` the viewer is {want[0]} and the bound uses its visible distance")
+            else:
+                ctx.finding(
+                    R,
+                    c,
+                    f"visibilityBound roles under {norm_text(i.test, 50)}",
+                    f"maxDistanceBetween: under `{unparse(i.test)}` it is {want[0]} that must see {want[1]}, but the bound is `{unparse(c)}`, i.e. computed from "
+                    f"{got[0]}'s visible distance: when the viewer sees farther than the object it observes, feasible positions are pruned",
+                )
+    ctx.floor(R, n_vb, 4, "visibilityBound calls in maxDistanceBetween")
+    # the fast path of the buffered view region grows the bounding box by the amount on BOTH sides of every axis
+    bo = model.func(RG, "MeshVolumeRegion._bufferOverapproximate")
+    amt_p = bo.args.args[1].arg
+    boxes = [c for c in walk_local(bo) if isinstance(c, ast.Call) and dotted(c.func) == "BoxRegion" and lib.kw(c, "dimensions") is not None]
+    for c in boxes:
+        d = ast.parse(lib.role_text(bo, lib.kw(c, "dimensions")), mode="eval").body
+        while isinstance(d, ast.Call) and dotted(d.func) in ("list", "tuple", "numpy.array") and d.args:
+            d = d.args[0]
+        f = lin(d)
+        if f.get(amt_p, 0) >= 2:
+            ctx.ok(R, c, f"buffered bounding box: extent + {f.get(amt_p)} * {amt_p} (the amount on each side)")
+        else:
+            ctx.finding(R, c, "buffered box grows by less than twice the amount", f"_bufferOverapproximate's box has dimensions `{unparse(d)}`: the extent grows by {f.get(amt_p, 0)} * {amt_p} in total, i.e. by less than {amt_p} on each side, so the result is not an over-approximation of the buffered region")
+    ctx.floor(R, len(boxes), 1, "bounding-box fast path of _bufferOverapproximate")
     # containment radius: planarInradius only for flat polygonal bases
     fn = model.func(PR, "pruneContainment")
     for n_ in walk_local(fn):
